@@ -10,7 +10,7 @@ use vibrato::verif_hooks::*;
 fn truncated(img: &[u8], lo: usize, hi: usize) {
     let k: usize = kani::any();
     kani::assume(k >= lo && k < hi && k < img.len());
-    let r = Dictionary::read(ByteReader::new(img, k));
+    let r = Dictionary::read(CutReader::new(img, k));
     assert!(r.is_err(), "a strict prefix of a dictionary image was loaded");
     kani::cover!(k == hi - 1 || k == img.len() - 1);
     kani::cover!(k == lo);
@@ -19,61 +19,67 @@ fn truncated(img: &[u8], lo: usize, hi: usize) {
 
 #[cfg(kani)]
 fn full_image_loads(img: &[u8]) {
-    let r = Dictionary::read(ByteReader::new(img, img.len()));
+    let r = Dictionary::read(CutReader::new(img, img.len()));
     assert!(r.is_ok(), "the untruncated image must load (otherwise the prefix claim is vacuous)");
     core::mem::forget(r);
 }
 
-//@ c09_matrix_all_prefixes {"tier":"thorough","core":false,"desc":"every strict prefix of a matrix-connector dictionary image is rejected with an error, no panic","bounds":"359-byte image (2 words, 2x2 matrix, 3-entry char table, 2 unk entries); truncation point 0..358","symbolic":"the truncation point","functions":["Dictionary::read","Dictionary::read_common","bincode::decode_from_std_read","Trie::decode","DictionaryInner::decode"],"fs":5000,"unwind":24,"unwindset":["memcmp:24"],"timeout":1800,"mem_gb":20,"stubs":["alloc::fmt::format"]}
+//@ c09_matrix_all_prefixes {"tier":"thorough","core":false,"desc":"every strict prefix of a matrix-connector dictionary image is rejected with an error, no panic","bounds":"359-byte image (2 words, 2x2 matrix, 3-entry char table, 2 unk entries); truncation point 0..358","symbolic":"the truncation point","functions":["Dictionary::read","Dictionary::read_common","bincode::decode_from_std_read","Trie::decode","DictionaryInner::decode"],"fs":5000,"unwind":24,"unwindset":["memcmp:24"],"timeout":5400,"mem_gb":28,"cbmc_args":["--paths","lifo"],"stubs":["alloc::fmt::format"]}
 #[cfg(kani)]
 #[kani::proof]
 #[kani::stub(alloc::fmt::format, crate::c06::stub_format)]
+#[kani::stub(unty::type_equal, crate::csvstub::stub_type_equal)]
 fn c09_matrix_all_prefixes() {
     truncated(&gen::IMG_MATRIX, 0, gen::IMG_MATRIX.len())
 }
 
-//@ c09_matrix_full_loads {"tier":"thorough","core":false,"desc":"the complete image loads (non-vacuity of the prefix claim)","bounds":"359-byte image","symbolic":"none","functions":["Dictionary::read"],"fs":5000,"unwind":24,"unwindset":["memcmp:24"],"timeout":900,"covers":"none","stubs":["alloc::fmt::format"]}
+//@ c09_matrix_full_loads {"desc":"the complete image loads (non-vacuity of the prefix claim)","bounds":"359-byte image","symbolic":"none","functions":["Dictionary::read"],"fs":5000,"unwind":24,"unwindset":["memcmp:24"],"timeout":900,"covers":"none","stubs":["alloc::fmt::format"]}
 #[cfg(kani)]
 #[kani::proof]
 #[kani::stub(alloc::fmt::format, crate::c06::stub_format)]
+#[kani::stub(unty::type_equal, crate::csvstub::stub_type_equal)]
 fn c09_matrix_full_loads() {
     full_image_loads(&gen::IMG_MATRIX)
 }
 
-//@ c09_raw_all_prefixes {"tier":"thorough","core":false,"desc":"every strict prefix of a raw-connector dictionary image (scorer arrays, 8-lane feature rows) is rejected","bounds":"547-byte image; truncation point 0..546","symbolic":"the truncation point","functions":["Dictionary::read","Scorer::decode","U31x8::decode","U31::decode"],"fs":5000,"unwind":24,"unwindset":["memcmp:24"],"timeout":2400,"mem_gb":24,"stubs":["alloc::fmt::format"]}
+//@ c09_raw_all_prefixes {"tier":"thorough","core":false,"desc":"every strict prefix of a raw-connector dictionary image (scorer arrays, 8-lane feature rows) is rejected","bounds":"547-byte image; truncation point 0..546","symbolic":"the truncation point","functions":["Dictionary::read","Scorer::decode","U31x8::decode","U31::decode"],"fs":5000,"unwind":24,"unwindset":["memcmp:24"],"timeout":5400,"mem_gb":28,"cbmc_args":["--paths","lifo"],"stubs":["alloc::fmt::format"]}
 #[cfg(kani)]
 #[kani::proof]
 #[kani::stub(alloc::fmt::format, crate::c06::stub_format)]
+#[kani::stub(unty::type_equal, crate::csvstub::stub_type_equal)]
 fn c09_raw_all_prefixes() {
     truncated(&gen::IMG_RAW, 0, gen::IMG_RAW.len())
 }
 
-//@ c09_dual_user_all_prefixes {"tier":"thorough","core":false,"desc":"every strict prefix of a dual-connector image with a user lexicon is rejected","bounds":"695-byte image; truncation point 0..694","symbolic":"the truncation point","functions":["Dictionary::read","DualConnector::decode","Scorer::decode"],"fs":5000,"unwind":24,"unwindset":["memcmp:24"],"timeout":2400,"mem_gb":24,"stubs":["alloc::fmt::format"]}
+//@ c09_dual_user_all_prefixes {"tier":"thorough","core":false,"desc":"every strict prefix of a dual-connector image with a user lexicon is rejected","bounds":"695-byte image; truncation point 0..694","symbolic":"the truncation point","functions":["Dictionary::read","DualConnector::decode","Scorer::decode"],"fs":5000,"unwind":24,"unwindset":["memcmp:24"],"timeout":5400,"mem_gb":28,"cbmc_args":["--paths","lifo"],"stubs":["alloc::fmt::format"]}
 #[cfg(kani)]
 #[kani::proof]
 #[kani::stub(alloc::fmt::format, crate::c06::stub_format)]
+#[kani::stub(unty::type_equal, crate::csvstub::stub_type_equal)]
 fn c09_dual_user_all_prefixes() {
     truncated(&gen::IMG_DUAL, 0, gen::IMG_DUAL.len())
 }
 
-//@ c09_mapped_user_all_prefixes {"tier":"thorough","core":false,"desc":"every strict prefix of an image with user lexicon and stored id mapper is rejected","bounds":"483-byte image","symbolic":"the truncation point","functions":["Dictionary::read","ConnIdMapper::decode"],"fs":5000,"unwind":24,"unwindset":["memcmp:24"],"timeout":2400,"mem_gb":24,"stubs":["alloc::fmt::format"]}
+//@ c09_mapped_user_all_prefixes {"tier":"thorough","core":false,"desc":"every strict prefix of an image with user lexicon and stored id mapper is rejected","bounds":"483-byte image","symbolic":"the truncation point","functions":["Dictionary::read","ConnIdMapper::decode"],"fs":5000,"unwind":24,"unwindset":["memcmp:24"],"timeout":5400,"mem_gb":28,"cbmc_args":["--paths","lifo"],"stubs":["alloc::fmt::format"]}
 #[cfg(kani)]
 #[kani::proof]
 #[kani::stub(alloc::fmt::format, crate::c06::stub_format)]
+#[kani::stub(unty::type_equal, crate::csvstub::stub_type_equal)]
 fn c09_mapped_user_all_prefixes() {
     truncated(&gen::IMG_MATRIX_USER_MAPPED, 0, gen::IMG_MATRIX_USER_MAPPED.len())
 }
 
-//@ c09_foreign_magic {"tier":"thorough","core":false,"desc":"any 21-byte header different from the current model magic, followed by the valid body, is rejected","bounds":"21-byte header, fully symbolic, different from the magic; nothing after it","symbolic":"all 21 header bytes","functions":["Dictionary::read","Dictionary::read_common"],"fs":5000,"unwind":24,"unwindset":["memcmp:24"],"timeout":1200,"stubs":["alloc::fmt::format"]}
+//@ c09_foreign_magic {"desc":"any 21-byte header different from the current model magic, followed by the valid body, is rejected","bounds":"21-byte header, fully symbolic, different from the magic, followed by the valid body of the 359-byte image","symbolic":"all 21 header bytes","functions":["Dictionary::read","Dictionary::read_common"],"fs":5000,"unwind":24,"unwindset":["memcmp:24"],"timeout":1200,"stubs":["alloc::fmt::format"]}
 #[cfg(kani)]
 #[kani::proof]
 #[kani::stub(alloc::fmt::format, crate::c06::stub_format)]
+#[kani::stub(unty::type_equal, crate::csvstub::stub_type_equal)]
 fn c09_foreign_magic() {
     const MAGIC: &[u8] = b"VibratoTokenizer 0.5\n";
     // the body is irrelevant on every path where the header differs from the magic (the
     // reader returns before touching it); offering only the header keeps the infeasible
     // "magic matched" path short
-    let mut img = [0u8; 21];
+    let mut img = gen::IMG_MATRIX;
     let mut same = true;
     for i in 0..21 {
         let b: u8 = kani::any();
@@ -83,24 +89,21 @@ fn c09_foreign_magic() {
         }
     }
     kani::assume(!same);
-    let r = Dictionary::read(ByteReader::hard(&img, img.len()));
+    let r = Dictionary::read(CutReader::new(&img, img.len()));
     assert!(r.is_err(), "an image with a foreign magic was loaded");
     kani::cover!(img[0] == b'V' && img[19] == b'4');
     core::mem::forget(r);
 }
 
-//@ c09_header_truncated {"tier":"thorough","core":false,"desc":"every image cut inside the magic header (0..20 bytes) is rejected","bounds":"truncation point 0..20 of the 359-byte matrix image","symbolic":"the truncation point","functions":["Dictionary::read","Dictionary::read_common"],"fs":5000,"unwind":24,"unwindset":["memcmp:24"],"timeout":900,"stubs":["alloc::fmt::format"]}
+//@ c09_header_truncated {"tier":"thorough","core":false,"desc":"every image cut inside the magic header (0..20 bytes) is rejected","bounds":"truncation point 0..20 of the 359-byte matrix image","symbolic":"the truncation point","functions":["Dictionary::read","Dictionary::read_common"],"fs":5000,"unwind":24,"unwindset":["memcmp:24"],"timeout":3600,"mem_gb":24,"cbmc_args":["--paths","lifo"],"stubs":["alloc::fmt::format"]}
 #[cfg(kani)]
 #[kani::proof]
 #[kani::stub(alloc::fmt::format, crate::c06::stub_format)]
+#[kani::stub(unty::type_equal, crate::csvstub::stub_type_equal)]
 fn c09_header_truncated() {
     // only the 21 header bytes are offered: symex cannot know that a cut inside the header never
     // reaches the body, and would otherwise decode the whole body under an infeasible guard
-    let mut hdr = [0u8; 21];
-    for i in 0..21 {
-        hdr[i] = gen::IMG_MATRIX[i];
-    }
-    truncated(&hdr, 0, 21)
+    truncated(&gen::IMG_MATRIX, 0, 21)
 }
 
 use bincode::{Decode, Encode};
@@ -188,7 +191,7 @@ fn scorer_decode(ncost: usize) {
     for i in 36..48 {
         buf[i] = kani::any();
     }
-    let mut r = ByteReader::new(&buf, total);
+    let mut r = CutReader::new(&buf, total);
     let d: Result<Scorer, _> = bincode::decode_from_std_read(&mut r, bincode_config());
     assert!(d.is_ok() == (ncost == 2), "Scorer image with inconsistent arrays accepted (or consistent one rejected)");
     if let Ok(sc) = &d {
@@ -199,23 +202,26 @@ fn scorer_decode(ncost: usize) {
     core::mem::forget(d);
 }
 
-//@ c09_scorer_decode_short_costs {"tier":"thorough","core":false,"desc":"the Scorer decoder rejects an image whose cost array is shorter than its check array (decoder-side consistency check)","bounds":"bases 1, checks 2, costs 1","symbolic":"array contents","functions":["Scorer::decode"],"unwind":14,"fs":5000,"timeout":900}
+//@ c09_scorer_decode_short_costs {"desc":"the Scorer decoder rejects an image whose cost array is shorter than its check array (decoder-side consistency check)","bounds":"bases 1, checks 2, costs 1","symbolic":"array contents","functions":["Scorer::decode"],"unwind":14,"fs":5000,"timeout":900}
 #[cfg(kani)]
 #[kani::proof]
+#[kani::stub(unty::type_equal, crate::csvstub::stub_type_equal)]
 fn c09_scorer_decode_short_costs() {
     scorer_decode(1)
 }
 
-//@ c09_scorer_decode_long_costs {"tier":"thorough","core":false,"desc":"the Scorer decoder rejects an image whose cost array is longer than its check array","bounds":"bases 1, checks 2, costs 3","symbolic":"array contents","functions":["Scorer::decode"],"unwind":14,"fs":5000,"timeout":900}
+//@ c09_scorer_decode_long_costs {"desc":"the Scorer decoder rejects an image whose cost array is longer than its check array","bounds":"bases 1, checks 2, costs 3","symbolic":"array contents","functions":["Scorer::decode"],"unwind":14,"fs":5000,"timeout":900}
 #[cfg(kani)]
 #[kani::proof]
+#[kani::stub(unty::type_equal, crate::csvstub::stub_type_equal)]
 fn c09_scorer_decode_long_costs() {
     scorer_decode(3)
 }
 
-//@ c09_scorer_decode_consistent {"tier":"thorough","core":false,"desc":"a consistent Scorer image is accepted and decodes to the written values (non-vacuity of the two rejections)","bounds":"bases 1, checks 2, costs 2","symbolic":"array contents","functions":["Scorer::decode"],"unwind":14,"fs":5000,"timeout":900}
+//@ c09_scorer_decode_consistent {"desc":"a consistent Scorer image is accepted and decodes to the written values (non-vacuity of the two rejections)","bounds":"bases 1, checks 2, costs 2","symbolic":"array contents","functions":["Scorer::decode"],"unwind":14,"fs":5000,"timeout":900}
 #[cfg(kani)]
 #[kani::proof]
+#[kani::stub(unty::type_equal, crate::csvstub::stub_type_equal)]
 fn c09_scorer_decode_consistent() {
     scorer_decode(2)
 }
@@ -224,6 +230,7 @@ fn c09_scorer_decode_consistent() {
 #[cfg(kani)]
 #[kani::proof]
 #[kani::stub(alloc::fmt::format, crate::c06::stub_format)]
+#[kani::stub(unty::type_equal, crate::csvstub::stub_type_equal)]
 fn c09_twin() {
     // claims that a header cut at any point up to and including the full magic is rejected
     // *because of the magic*: with all 21 bytes present the reader proceeds to the body
